@@ -212,10 +212,12 @@ def check_calls(r):
     bp = BluePrint()
     want = []
     k = r.randint(1, 5)
-    for _ in range(k):
-        nm = r.choice(["const", "lin2", "poly4"])
+    for j in range(k):
+        nm = r.choice(["const", "lin2", "poly4", "istep", "icount"])
+        if j == 0 and k > 1 and r.random() < 0.5:
+            nm = r.choice(["istep", "icount"])      # the FIRST shape hands back ints (a list / an int array): the others keep their values
         f = userfns.USER[nm]
-        ar = {"const": 1, "lin2": 2, "poly4": 4}[nm]
+        ar = {"const": 1, "lin2": 2, "poly4": 4, "istep": 1, "icount": 1}[nm]
         args = tuple(r.choice([r.uniform(-2, 2), r.randint(-3, 3)]) for _ in range(ar))
         n = r.randint(2, 40)
         frac = r.uniform(-0.4, 0.4) if r.random() < 0.5 else 0.0
@@ -225,8 +227,15 @@ def check_calls(r):
     e = Element()
     e.addBluePrint(1, bp)
     del userfns.CALLS[:]
-    e.getArrays()
+    forged = e.getArrays()
     calls = list(userfns.CALLS)
+    # the blocks are what the shapes return for these arguments
+    expect = np.concatenate([np.asarray(userfns.USER[wn](*wa, wsr, wnp), dtype=float) for wn, wa, wsr, wnp in want])
+    del userfns.CALLS[len(calls):]
+    got = np.asarray(forged[1]["wfm"], dtype=float)
+    if got.shape != expect.shape or not np.array_equal(got, expect):
+        i = int(np.argmax(got != expect)) if got.shape == expect.shape else -1
+        return f"the forged waveform is not the concatenation of what the user shapes return (first difference at sample {i}: {got[i] if i >= 0 else got.shape} vs {expect[i] if i >= 0 else expect.shape})"
     if len(calls) != len(want):
         return f"{len(want)} user segments, {len(calls)} calls of user shapes in one forge"
     for (nm, args, sr, npts, tname), (wn, wa, wsr, wnp) in zip(calls, want):
